@@ -831,6 +831,7 @@ func (st *Runtime) isSet(node Node) (ok bool) {
 
 func (st *Runtime) evalNumericComparativeExpression(node *NumericComparativeExprNode) reflect.Value {
 	left, right := st.evalPrimaryExpressionGroup(node.Left), st.evalPrimaryExpressionGroup(node.Right)
+	defer positionOperandError(node)
 	isTrue := false
 	kind := left.Kind()
 
@@ -927,6 +928,7 @@ func (st *Runtime) evalLogicalExpression(node *LogicalExprNode) reflect.Value {
 
 func (st *Runtime) evalComparativeExpression(node *ComparativeExprNode) reflect.Value {
 	left, right := st.evalPrimaryExpressionGroup(node.Left), st.evalPrimaryExpressionGroup(node.Right)
+	defer positionOperandError(node)
 	equal := checkEquality(left, right)
 	if node.Operator.typ == itemNotEquals {
 		return reflect.ValueOf(!equal)
@@ -934,9 +936,28 @@ func (st *Runtime) evalComparativeExpression(node *ComparativeExprNode) reflect.
 	return reflect.ValueOf(equal)
 }
 
+// operandConversionError is raised by toInt, toUint and toFloat for an operand
+// that cannot take part in an arithmetic operation or a comparison.
+type operandConversionError struct{ error }
+
+func operandConversionErrorf(format string, v ...interface{}) operandConversionError {
+	return operandConversionError{fmt.Errorf(format, v...)}
+}
+
+// positionOperandError re-raises an operandConversionError that escapes the
+// evaluation of node as a runtime error carrying node's file and line.
+func positionOperandError(node Node) {
+	if r := recover(); r != nil {
+		if e, ok := r.(operandConversionError); ok {
+			node.error(e.error)
+		}
+		panic(r)
+	}
+}
+
 func toInt(v reflect.Value) int64 {
 	if !v.IsValid() {
-		panic(fmt.Errorf("invalid value can't be converted to int64"))
+		panic(operandConversionErrorf("invalid value can't be converted to int64"))
 	}
 	kind := v.Kind()
 	if isInt(kind) {
@@ -948,7 +969,7 @@ func toInt(v reflect.Value) int64 {
 	} else if kind == reflect.String {
 		n, e := strconv.ParseInt(v.String(), 10, 0)
 		if e != nil {
-			panic(e)
+			panic(operandConversionError{e})
 		}
 		return n
 	} else if kind == reflect.Bool {
@@ -957,12 +978,12 @@ func toInt(v reflect.Value) int64 {
 		}
 		return 1
 	}
-	panic(fmt.Errorf("type: %q can't be converted to int64", v.Type()))
+	panic(operandConversionErrorf("type: %q can't be converted to int64", v.Type()))
 }
 
 func toUint(v reflect.Value) uint64 {
 	if !v.IsValid() {
-		panic(fmt.Errorf("invalid value can't be converted to uint64"))
+		panic(operandConversionErrorf("invalid value can't be converted to uint64"))
 	}
 	kind := v.Kind()
 	if isUint(kind) {
@@ -974,7 +995,7 @@ func toUint(v reflect.Value) uint64 {
 	} else if kind == reflect.String {
 		n, e := strconv.ParseUint(v.String(), 10, 0)
 		if e != nil {
-			panic(e)
+			panic(operandConversionError{e})
 		}
 		return n
 	} else if kind == reflect.Bool {
@@ -983,12 +1004,12 @@ func toUint(v reflect.Value) uint64 {
 		}
 		return 1
 	}
-	panic(fmt.Errorf("type: %q can't be converted to uint64", v.Type()))
+	panic(operandConversionErrorf("type: %q can't be converted to uint64", v.Type()))
 }
 
 func toFloat(v reflect.Value) float64 {
 	if !v.IsValid() {
-		panic(fmt.Errorf("invalid value can't be converted to float64"))
+		panic(operandConversionErrorf("invalid value can't be converted to float64"))
 	}
 	kind := v.Kind()
 	if isFloat(kind) {
@@ -1000,7 +1021,7 @@ func toFloat(v reflect.Value) float64 {
 	} else if kind == reflect.String {
 		n, e := strconv.ParseFloat(v.String(), 0)
 		if e != nil {
-			panic(e)
+			panic(operandConversionError{e})
 		}
 		return n
 	} else if kind == reflect.Bool {
@@ -1009,11 +1030,12 @@ func toFloat(v reflect.Value) float64 {
 		}
 		return 1
 	}
-	panic(fmt.Errorf("type: %q can't be converted to float64", v.Type()))
+	panic(operandConversionErrorf("type: %q can't be converted to float64", v.Type()))
 }
 
 func (st *Runtime) evalMultiplicativeExpression(node *MultiplicativeExprNode) reflect.Value {
 	left, right := st.evalPrimaryExpressionGroup(node.Left), st.evalPrimaryExpressionGroup(node.Right)
+	defer positionOperandError(node)
 	kind := left.Kind()
 	// if the left value is not a float and the right is, we need to promote the left value to a float before the calculation
 	// this is necessary for expressions like 4*1.23
@@ -1103,6 +1125,7 @@ func (st *Runtime) evalAdditiveExpression(node *AdditiveExprNode) reflect.Value 
 	}
 
 	left, right := st.evalPrimaryExpressionGroup(node.Left), st.evalPrimaryExpressionGroup(node.Right)
+	defer positionOperandError(node)
 	if !left.IsValid() {
 		node.errorf("left side of additive expression is invalid value")
 	}
